@@ -155,6 +155,42 @@ pub fn run(_args: &[String]) -> i32 {
             }
         }
     }
+    // layouts in which a file is delivered more than once (no cycle): expected sequence given explicitly
+    let repeated: Vec<(&str, Vec<(String, String)>, Vec<usize>)> = vec![
+        ("a later glob match includes an earlier match again", vec![
+            ("main.ledger".into(), format!("{}include y/*.ledger\n\n{}", e[0], e[6])),
+            ("y/00.ledger".into(), e[1].clone()),
+            ("y/01.ledger".into(), e[2].clone()),
+            ("y/02.ledger".into(), format!("include 00.ledger\n\n{}", e[5])),
+        ], vec![0, 1, 2, 1, 5, 6]),
+        ("the same file included by two separate lines and from a sub-directory", vec![
+            ("main.ledger".into(), format!("include c.ledger\n\n{}include c.ledger\n\ninclude d/e.ledger\n", e[1])),
+            ("c.ledger".into(), e[5].clone()),
+            ("d/e.ledger".into(), format!("{}include ../c.ledger\n", e[2])),
+        ], vec![5, 1, 5, 2, 5]),
+    ];
+    if let Some((bg, _)) = &baseline {
+        for (i, (name, files, want)) in repeated.iter().enumerate() {
+            evaluated += 1;
+            let dir = tmp.path().join(format!("r{}", i));
+            for (rel, content) in files { write(&dir, rel, content); }
+            let desc = format!("layout `{}`:\n{}", name, files.iter().map(|(p, c)| format!("--- {}\n{}", p, c)).collect::<Vec<_>>().join(""));
+            let want_seq: Vec<String> = want.iter().map(|k| bg[*k].clone()).collect();
+            match deliver(&dir.join("main.ledger")) {
+                Ok(g) if g == want_seq => {}
+                Ok(g) => bad.push((desc.clone(), format!("delivered {} entries {:?}, expected the entries {:?} of the unsplit ledger", g.len(), g.iter().map(|x| x.lines().next().unwrap_or("").to_owned()).collect::<Vec<_>>(), want))),
+                Err(er) => bad.push((desc.clone(), format!("rejected although nothing is recursive: {}", er.lines().next().unwrap_or("")))),
+            }
+            if !name.contains("sub-directory") {
+                evaluated += 1;
+                match deliver_fake(files) {
+                    Ok(g) if g == want_seq => {}
+                    Ok(g) => bad.push((format!("(in-memory file system) {}", desc), format!("delivered {} entries, expected {:?}", g.len(), want))),
+                    Err(er) => bad.push((format!("(in-memory file system) {}", desc), format!("rejected although nothing is recursive: {}", er.lines().next().unwrap_or("")))),
+                }
+            }
+        }
+    }
     // an include that matches nothing is an error (literal path and glob)
     for (i, inc) in ["include missing.ledger\n", "include nothing/*.ledger\n", "include .*.ledger\n"].iter().enumerate() {
         evaluated += 1;
